@@ -281,4 +281,104 @@ mod c31_api {
         println!("VERIF-B-SAMPLE violation classes this run: {:?}", counts);
         println!("VERIF-B unit=ffi_utils test=c31_released_handles_are_untracked_and_second_free_is_an_error evaluations={evals} nontrivial={nontrivial} exhaustive=true domain=12 constructor / release pairs of the exported C API (strings x 3 release functions, settings, context builder, context, reader x 2, builder, both mime-type arrays with all their elements), each followed by a second free");
     }
+
+    // ---- handle-consuming calls with aliased handles.  A call that takes ownership of two handles is given the SAME live
+    // handle twice (and a live one with an already released one): it must refuse or succeed, and the registry must keep
+    // giving one consistent answer about every handle involved - never a second release of the same allocation.  A double
+    // free aborts the process, so the calls run in a child process (this test binary re-executed on the ignored test
+    // below); the parent reports an abnormal exit as the violation.
+    fn make_signer() -> *mut C2paSigner {
+        let dir = concat!(env!("CARGO_MANIFEST_DIR"), "/../sdk/tests/fixtures/certs/");
+        let certs = std::fs::read_to_string(format!("{dir}ed25519.pub")).unwrap_or_default();
+        let key = std::fs::read_to_string(format!("{dir}ed25519.pem")).unwrap_or_default();
+        let alg = std::ffi::CString::new("Ed25519").unwrap();
+        let sign_cert = std::ffi::CString::new(certs).unwrap();
+        let private_key = std::ffi::CString::new(key).unwrap();
+        let info = C2paSignerInfo { alg: alg.as_ptr(), sign_cert: sign_cert.as_ptr(), private_key: private_key.as_ptr(), ta_url: std::ptr::null() };
+        unsafe { c2pa_signer_from_info(&info) }
+    }
+
+    #[test]
+    #[ignore]
+    #[allow(deprecated)]
+    fn c31_child_aliased_signer_handles() {
+        let refs: [*const c_char; 1] = [std::ptr::null()];
+        let roles: [*const c_char; 1] = [std::ptr::null()];
+        let mut done = 0usize;
+        // case 0: (s, s); case 1: (s, released t); case 2: (released t, s)
+        for case in 0..3 {
+            let s = make_signer();
+            let t = make_signer();
+            if s.is_null() || t.is_null() {
+                println!("CHILD-SETUP-FAILED");
+                return;
+            }
+            unsafe {
+                let (a, b) = match case {
+                    0 => (s, s),
+                    1 => { c2pa_free(t as *const c_void); (s, t) }
+                    _ => { c2pa_free(t as *const c_void); (t, s) }
+                };
+                let combined = c2pa_identity_signer_create(a, b, refs.as_ptr(), roles.as_ptr());
+                if !combined.is_null() {
+                    println!("VERIF-B-VIOLATION key=c_api.aliased_handles_accepted input=c2pa_identity_signer_create case {case} (0: same handle twice, 1/2: one handle already released) returned a signer");
+                    c2pa_free(combined as *const c_void);
+                }
+                // one consistent answer about s: usable and freeable exactly once, or consumed and not freeable at all
+                let usable = c2pa_signer_reserve_size(s) >= 0;
+                let first = c2pa_free(s as *const c_void);
+                if (first == 0) != usable {
+                    println!("VERIF-B-VIOLATION key=c_api.handle_state_inconsistent input=c2pa_identity_signer_create case {case}: handle usable={usable} but c2pa_free returned {first}");
+                }
+                if c2pa_free(s as *const c_void) != -1 {
+                    println!("VERIF-B-VIOLATION key=c_api.handle_released_twice input=c2pa_identity_signer_create case {case}: second c2pa_free of the signer did not fail");
+                }
+                if case == 0 {
+                    c2pa_free(t as *const c_void);
+                }
+            }
+            done += 1;
+        }
+        // the library keeps working
+        let other = make_signer();
+        unsafe {
+            if other.is_null() || c2pa_signer_reserve_size(other) <= 0 || c2pa_free(other as *const c_void) != 0 {
+                println!("VERIF-B-VIOLATION key=c_api.library_unusable_after_refused_call input=signer creation / release after the aliased calls");
+            }
+        }
+        println!("CHILD-DONE cases={done}");
+    }
+
+    #[test]
+    fn c31_consuming_calls_with_aliased_handles() {
+        let name = concat!(module_path!(), "::c31_child_aliased_signer_handles");
+        let name = name.split_once("::").map(|(_, rest)| rest.to_string()).unwrap_or_default();
+        let out = std::env::current_exe().and_then(|exe| std::process::Command::new(exe).args(["--exact", &name, "--ignored", "--nocapture", "--test-threads", "1"]).output());
+        let mut viol = 0usize;
+        match out {
+            Err(e) => {
+                println!("VERIF-B-SAMPLE could not start the child process: {e}");
+                println!("VERIF-B unit=ffi_utils test=c31_consuming_calls_with_aliased_handles evaluations=0 nontrivial=0 exhaustive=false domain=child process not started");
+                return;
+            }
+            Ok(o) => {
+                let text = String::from_utf8_lossy(&o.stdout).to_string();
+                for l in text.lines().filter(|l| l.starts_with("VERIF-B-VIOLATION")) {
+                    println!("{l}");
+                    viol += 1;
+                }
+                let finished = text.contains("CHILD-DONE cases=3");
+                if text.contains("CHILD-SETUP-FAILED") {
+                    println!("VERIF-B-SAMPLE child could not create the test signers");
+                } else if !o.status.success() || !finished {
+                    viol += 1;
+                    let err = String::from_utf8_lossy(&o.stderr);
+                    let hint = err.lines().rev().find(|l| l.contains("free") || l.contains("SIG") || l.contains("panicked")).unwrap_or("").chars().take(120).collect::<String>();
+                    println!("VERIF-B-VIOLATION key=c_api.aliased_handles_crash input=c2pa_identity_signer_create with the same live signer handle twice / with a released handle: the process ended abnormally ({:?}) {hint}", o.status);
+                }
+            }
+        }
+        println!("VERIF-B-SAMPLE child process ran c2pa_identity_signer_create(s, s), (s, released), (released, s)");
+        println!("VERIF-B unit=ffi_utils test=c31_consuming_calls_with_aliased_handles evaluations=3 nontrivial=3 exhaustive=true domain=c2pa_identity_signer_create with the same live handle in both positions and with one already released handle in either position, in a child process; violations={viol}");
+    }
 }
